@@ -37,6 +37,7 @@ import (
 	"bytes"
 	"fmt"
 	"go/ast"
+	"go/constant"
 	"go/token"
 	"go/types"
 	"os"
@@ -424,6 +425,243 @@ func hasDefer(d *ast.FuncDecl) bool {
 	return found
 }
 
+// lowerableDefers returns the defer statements of a helper when they can be turned into explicit calls at every exit:
+// each is a top-level statement of the body, defers a plain call (no function literal, no recover) whose operands are
+// names, selections and constants, and no name it mentions is assigned after the defer statement — so evaluating the
+// operands at the exit gives what evaluating them at the defer gave. (Panics are outside this normal form: a deferred
+// call that would have run during a panic is not shown on that path.) nil if any defer does not qualify.
+func lowerableDefers(info *types.Info, d *ast.FuncDecl) []*ast.DeferStmt {
+	var out []*ast.DeferStmt
+	top := map[ast.Stmt]bool{}
+	for _, st := range d.Body.List {
+		top[st] = true
+	}
+	ok := true
+	ast.Inspect(d.Body, func(n ast.Node) bool {
+		switch x := n.(type) {
+		case *ast.FuncLit:
+			return false
+		case *ast.DeferStmt:
+			if !top[x] {
+				ok = false
+				return false
+			}
+			if lit, isLit := ast.Unparen(x.Call.Fun).(*ast.FuncLit); isLit {
+				// a literal without parameters reads everything when it runs, at the exit, anyway; one that could assign a
+				// named result after the return values were computed is left alone
+				if len(x.Call.Args) != 0 || (lit.Type.Params != nil && len(lit.Type.Params.List) != 0) || hasNamedResults(d) {
+					ok = false
+					return false
+				}
+				out = append(out, x)
+				return false
+			}
+			simple := true
+			var names []types.Object
+			var operand func(e ast.Expr)
+			operand = func(e ast.Expr) {
+				switch y := ast.Unparen(e).(type) {
+				case *ast.Ident:
+					if o := info.Uses[y]; o != nil {
+						if _, isVar := o.(*types.Var); isVar {
+							names = append(names, o)
+						}
+					}
+				case *ast.SelectorExpr:
+					operand(y.X)
+				case *ast.BasicLit:
+				case *ast.UnaryExpr:
+					if y.Op == token.AND {
+						operand(y.X)
+					} else {
+						simple = false
+					}
+				case *ast.StarExpr:
+					operand(y.X)
+				default:
+					simple = false
+				}
+			}
+			operand(x.Call.Fun)
+			for _, a := range x.Call.Args {
+				operand(a)
+			}
+			if !simple {
+				ok = false
+				return false
+			}
+			// no operand name is assigned after the defer statement
+			ast.Inspect(d.Body, func(m ast.Node) bool {
+				var lhs []ast.Expr
+				switch z := m.(type) {
+				case *ast.AssignStmt:
+					lhs = z.Lhs
+				case *ast.IncDecStmt:
+					lhs = []ast.Expr{z.X}
+				case *ast.RangeStmt:
+					lhs = []ast.Expr{z.Key, z.Value}
+				}
+				for _, l := range lhs {
+					if l == nil || l.Pos() < x.End() {
+						continue
+					}
+					if id, isID := ast.Unparen(l).(*ast.Ident); isID {
+						o := info.Uses[id]
+						if o == nil {
+							o = info.Defs[id]
+						}
+						for _, nm := range names {
+							if o == nm {
+								ok = false
+							}
+						}
+					}
+				}
+				return true
+			})
+			out = append(out, x)
+			return false
+		}
+		return true
+	})
+	if !ok || len(out) == 0 {
+		return nil
+	}
+	return out
+}
+
+// prefixHelper recognises `func f(p []byte) []byte { b := make([]byte, K+len(p)); b[0] = c0; …; copy(b[K:], p); return b }`
+// and returns the constants c0 … cK-1 as source text.
+func prefixHelper(info *types.Info, d *ast.FuncDecl) ([]string, bool) {
+	if d.Recv != nil || d.Type.Params == nil || len(d.Type.Params.List) != 1 || len(d.Type.Params.List[0].Names) != 1 || d.Type.Results == nil || len(d.Type.Results.List) != 1 {
+		return nil, false
+	}
+	param := info.Defs[d.Type.Params.List[0].Names[0]]
+	isByteSlice := func(t types.Type) bool {
+		sl, ok := t.Underlying().(*types.Slice)
+		if !ok {
+			return false
+		}
+		b, ok := sl.Elem().Underlying().(*types.Basic)
+		return ok && b.Kind() == types.Uint8
+	}
+	if param == nil || !isByteSlice(param.Type()) || !isByteSlice(info.TypeOf(d.Type.Results.List[0].Type)) {
+		return nil, false
+	}
+	st := d.Body.List
+	if len(st) < 4 {
+		return nil, false
+	}
+	k := len(st) - 3
+	// b := make([]byte, K+len(p))
+	as, ok := st[0].(*ast.AssignStmt)
+	if !ok || as.Tok != token.DEFINE || len(as.Lhs) != 1 || len(as.Rhs) != 1 {
+		return nil, false
+	}
+	bid, ok := as.Lhs[0].(*ast.Ident)
+	if !ok {
+		return nil, false
+	}
+	buf := info.Defs[bid]
+	mk, ok := ast.Unparen(as.Rhs[0]).(*ast.CallExpr)
+	if !ok || len(mk.Args) != 2 {
+		return nil, false
+	}
+	if id, ok := ast.Unparen(mk.Fun).(*ast.Ident); !ok || id.Name != "make" || info.Uses[id] != types.Universe.Lookup("make") {
+		return nil, false
+	}
+	sum, ok := ast.Unparen(mk.Args[1]).(*ast.BinaryExpr)
+	if !ok || sum.Op != token.ADD {
+		return nil, false
+	}
+	isLenP := func(e ast.Expr) bool {
+		c, ok := ast.Unparen(e).(*ast.CallExpr)
+		if !ok || len(c.Args) != 1 {
+			return false
+		}
+		f, ok := ast.Unparen(c.Fun).(*ast.Ident)
+		if !ok || f.Name != "len" || info.Uses[f] != types.Universe.Lookup("len") {
+			return false
+		}
+		a, ok := ast.Unparen(c.Args[0]).(*ast.Ident)
+		return ok && info.Uses[a] == param
+	}
+	isK := func(e ast.Expr) bool {
+		tv, ok := info.Types[e]
+		if !ok || tv.Value == nil {
+			return false
+		}
+		v, exact := constant.Int64Val(constant.ToInt(tv.Value))
+		return exact && v == int64(k)
+	}
+	if !((isK(sum.X) && isLenP(sum.Y)) || (isLenP(sum.X) && isK(sum.Y))) {
+		return nil, false
+	}
+	// b[i] = ci
+	var consts []string
+	for i := 0; i < k; i++ {
+		a, ok := st[1+i].(*ast.AssignStmt)
+		if !ok || a.Tok != token.ASSIGN || len(a.Lhs) != 1 || len(a.Rhs) != 1 {
+			return nil, false
+		}
+		ix, ok := a.Lhs[0].(*ast.IndexExpr)
+		if !ok {
+			return nil, false
+		}
+		x, ok := ast.Unparen(ix.X).(*ast.Ident)
+		if !ok || info.Uses[x] != buf {
+			return nil, false
+		}
+		itv, ok := info.Types[ix.Index]
+		if !ok || itv.Value == nil {
+			return nil, false
+		}
+		if v, exact := constant.Int64Val(constant.ToInt(itv.Value)); !exact || v != int64(i) {
+			return nil, false
+		}
+		vtv, ok := info.Types[a.Rhs[0]]
+		if !ok || vtv.Value == nil {
+			return nil, false
+		}
+		cv, exact := constant.Int64Val(constant.ToInt(vtv.Value))
+		if !exact || cv < 0 || cv > 255 {
+			return nil, false
+		}
+		consts = append(consts, fmt.Sprintf("%d", cv))
+	}
+	// copy(b[K:], p)
+	es, ok := st[1+k].(*ast.ExprStmt)
+	if !ok {
+		return nil, false
+	}
+	cp, ok := es.X.(*ast.CallExpr)
+	if !ok || len(cp.Args) != 2 {
+		return nil, false
+	}
+	if f, ok := ast.Unparen(cp.Fun).(*ast.Ident); !ok || f.Name != "copy" || info.Uses[f] != types.Universe.Lookup("copy") {
+		return nil, false
+	}
+	sl, ok := ast.Unparen(cp.Args[0]).(*ast.SliceExpr)
+	if !ok || sl.High != nil || sl.Low == nil || !isK(sl.Low) {
+		return nil, false
+	}
+	if x, ok := ast.Unparen(sl.X).(*ast.Ident); !ok || info.Uses[x] != buf {
+		return nil, false
+	}
+	if a, ok := ast.Unparen(cp.Args[1]).(*ast.Ident); !ok || info.Uses[a] != param {
+		return nil, false
+	}
+	// return b
+	ret, ok := st[2+k].(*ast.ReturnStmt)
+	if !ok || len(ret.Results) != 1 {
+		return nil, false
+	}
+	if x, ok := ast.Unparen(ret.Results[0]).(*ast.Ident); !ok || info.Uses[x] != buf {
+		return nil, false
+	}
+	return consts, true
+}
+
 func namedOf(t types.Type) *types.Named {
 	if p, ok := t.(*types.Pointer); ok {
 		t = p.Elem()
@@ -571,6 +809,16 @@ func (in *inliner) plan(fi *FuncInfo, rs refSite) (func(), string) {
 		}
 	} else if len(call.Args) != sig.Params().Len() {
 		return nil, "argument count (tuple argument)"
+	}
+	// a helper that returns a fresh slice holding fixed bytes followed by a copy of its argument (make with the exact
+	// size, the bytes, copy) is `append([]byte{…}, arg...)` spelled out: the call is replaced by that expression
+	if consts, ok := prefixHelper(fi.Pkg.TypesInfo, fi.Decl); ok && len(call.Args) == 1 && recv == nil {
+		if _, isID := ast.Unparen(call.Args[0]).(*ast.Ident); isID {
+			argTxt := in.text(call.Args[0])
+			return func() {
+				in.addEdit(call.Pos(), call.End(), "append([]byte{"+strings.Join(consts, ", ")+"}, "+argTxt+"...)")
+			}, ""
+		}
 	}
 	if e := exprBody(fi.Pkg.TypesInfo, fi.Decl); e != nil && !callsRecover(fi.Pkg.TypesInfo, fi.Decl) {
 		if _, isDefer := st[ci-1].(*ast.DeferStmt); !isDefer {
@@ -2636,7 +2884,15 @@ func (in *inliner) planStmt(fi *FuncInfo, cc *callCtx) (func(), string) {
 			// the results are discarded: assigned to blanks
 			md = mAssign
 			for i := 0; i < nres; i++ {
-				lhs = append(lhs, "_")
+				// (a typed variable rather than the blank: `_ = nil` is not Go)
+				ts, ok := in.typeString(sig.Results().At(i).Type(), cc)
+				if !ok {
+					return nil, "type of a discarded result cannot be spelled at the call site"
+				}
+				in.seq++
+				name := fmt.Sprintf("discard%d__i%d", i, in.n+5000+in.seq%5000)
+				decls = append(decls, fmt.Sprintf("var %s %s; _ = %s", name, ts, name))
+				lhs = append(lhs, name)
 			}
 			tailReturn = tailOf(cc.enclLit, pn)
 		} else if tailOf(cc.enclLit, pn) {
@@ -2650,6 +2906,17 @@ func (in *inliner) planStmt(fi *FuncInfo, cc *callCtx) (func(), string) {
 			return nil, "assignment form"
 		}
 		if !inList(pn, cc.callIdx-1) {
+			// `if x, err := helper(); cond { … }`: the init statement moves in front of the `if`, both inside a block of their
+			// own (same scope for x and err; also right for `else if`); the next round expands the call there
+			if cc.callIdx >= 2 {
+				if outer, ok := st[cc.callIdx-2].(*ast.IfStmt); ok && outer.Init == ast.Stmt(pn) && outer.Cond != nil {
+					initTxt := in.text(pn)
+					return func() {
+						in.addEdit(outer.Pos(), outer.Cond.Pos(), "{ "+initTxt+"; if ")
+						in.addEdit(outer.End(), outer.End(), " }")
+					}, ""
+				}
+			}
 			return nil, "assignment not in a statement list"
 		}
 		for i, l := range pn.Lhs {
@@ -2793,8 +3060,18 @@ func (in *inliner) planStmt(fi *FuncInfo, cc *callCtx) (func(), string) {
 	default:
 		return in.planHoist(fi, cc, rets, last)
 	}
+	var lowered []*ast.DeferStmt // deferred calls that are made explicit at every exit of the expanded body
 	if hasDefer(fi.Decl) && md != mReturn && md != mDefer && tailRetText == "" {
-		return nil, "defer in a helper whose return is not a return of the caller"
+		lowered = lowerableDefers(fi.Pkg.TypesInfo, fi.Decl)
+		if md == mIf {
+			lowered = nil // the deferred calls would have to run between the condition and the branch
+		}
+		if lowered == nil {
+			return nil, "defer in a helper whose return is not a return of the caller"
+		}
+		// the short forms (result locals become the call site's variables; early returns threaded to the guard that
+		// follows) have no place for the deferred calls: the general form is used
+		unify, thread = nil, nil
 	}
 	if callsRecover(fi.Pkg.TypesInfo, fi.Decl) && md != mDefer {
 		return nil, "recover in a helper that is not itself deferred"
@@ -2960,15 +3237,29 @@ func (in *inliner) planStmt(fi *FuncInfo, cc *callCtx) (func(), string) {
 			in.seq++
 			extra = append(extra, inlEdit{off(s), off(e), t, in.seq, 0})
 		}
+		// deferred calls of the helper that are registered when control is at statement n, made explicit (latest first): the
+		// helper's defers are top-level statements of its body, so a return inside a later top-level statement has passed them
+		deferCalls := func(n ast.Node) string {
+			out := ""
+			for k := len(lowered) - 1; k >= 0; k-- {
+				if lowered[k].End() <= n.Pos() {
+					out += "; " + ex.substituted(lowered[k].Call, nil)
+				}
+			}
+			return out
+		}
+		for _, d := range lowered {
+			ed(d.Pos(), d.End(), "")
+		}
 		brk := func(r *ast.ReturnStmt) string {
 			if ast.Stmt(r) == last {
-				return ""
+				return deferCalls(r)
 			}
 			if tailReturn {
-				return "; return"
+				return deferCalls(r) + "; return"
 			}
 			needLabel = true
-			return "; break " + ex.label
+			return deferCalls(r) + "; break " + ex.label
 		}
 		var thenTxt, elseTxt string
 		thenTerm, elseTerm := false, false
@@ -3013,10 +3304,10 @@ func (in *inliner) planStmt(fi *FuncInfo, cc *callCtx) (func(), string) {
 						ed(r.Pos(), r.End(), tailRetText)
 					}
 				} else if ast.Stmt(r) == last {
-					ed(r.Pos(), r.End(), "")
+					ed(r.Pos(), r.End(), strings.TrimPrefix(deferCalls(r), "; "))
 				} else {
 					needLabel = true
-					ed(r.Pos(), r.End(), "break "+ex.label)
+					ed(r.Pos(), r.End(), "{ "+strings.TrimPrefix(deferCalls(r)+"; break "+ex.label, "; ")+" }")
 				}
 			case mAssign:
 				allBlank := true
@@ -3071,6 +3362,10 @@ func (in *inliner) planStmt(fi *FuncInfo, cc *callCtx) (func(), string) {
 		inner := ex.substituted(body, extra) // includes the braces of the body
 		inner = strings.TrimSpace(inner)
 		inner = inner[1 : len(inner)-1]
+		if _, endsInReturn := last.(*ast.ReturnStmt); !endsInReturn && len(lowered) > 0 {
+			// the body runs off its end: the deferred calls run there
+			inner += strings.TrimPrefix(deferCalls(&ast.EmptyStmt{Semicolon: body.Rbrace}), "; ") + "\n"
+		}
 		var sb strings.Builder
 		for _, d := range decls {
 			sb.WriteString(d + "; ")
